@@ -4,6 +4,7 @@ import (
 	"bytes"
 	"crypto/sha256"
 	"encoding/hex"
+	"encoding/json"
 	"fmt"
 	"math"
 	"os"
@@ -27,9 +28,11 @@ import (
 
 const (
 	PubPass  = "verifPubpass1"
-	Unit     = int64(100000000) // one abstract amount unit = 1 MASS
-	NumAddrs = 3                // keys per wallet: 0,1 issued as standard, 2 issued as staking
+	NumAddrs = 3 // keys per wallet: 0,1 issued as standard, 2 issued as staking
 )
+
+// Unit is the number of Maxwell of one abstract amount unit (1 MASS unless the universe says otherwise).
+var Unit = int64(100000000)
 
 func PrivPass(w string) string { return "privPass" + w + "0" }
 
@@ -162,6 +165,11 @@ func NewWorldGated(u *Universe, dir string, install func(w *World)) (*World, err
 }
 
 func newWorld(u *Universe, dir string, gapLimit uint32, install func(w *World)) (*World, error) {
+	if u.Unit > 0 {
+		Unit = u.Unit
+	} else {
+		Unit = 100000000
+	}
 	{
 		sc := env.Scale{CoinbaseMaturity: uint64(u.CbMat), MinFrozenPeriod: uint64(u.MinFrozen), BindingLock: uint64(u.BindLock), WarmUpHeight: 1 << 40}
 		if u.WarmUp > 0 {
@@ -1101,11 +1109,17 @@ type Result struct {
 	Diffs   []Diff `json:"diffs,omitempty"`
 	Compared int   `json:"compared"`
 	Sig     string `json:"sig,omitempty"`
+	Lines   []json.RawMessage `json:"lines,omitempty"`
 }
 
 // Replay runs one history in a fresh world under dir.
 func Replay(u *Universe, h History, dir string) (res Result) {
 	res.OK = true
+	if u.Unit > 0 {
+		Unit = u.Unit
+	} else {
+		Unit = 100000000
+	}
 	w, err := NewWorld(u, dir, 5)
 	if err != nil {
 		return Result{OK: false, Step: -1, Err: "setup: " + err.Error()}
@@ -1148,6 +1162,7 @@ type Options struct {
 	Actions   []string `json:"actions"`
 	Tasks     []string `json:"tasks"`
 	Final     string   `json:"final"`
+	Sweep     bool     `json:"sweep"`
 }
 
 // Run dispatches on the replay mode ("" = plain conformance replay).
@@ -1161,6 +1176,8 @@ func Run(u *Universe, h History, dir, mode string, opt Options) Result {
 		return ReplayFault(u, h, dir, opt.FaultStep, opt.FaultCall)
 	case "fault-addresses":
 		return FaultAddresses(u, dir, opt.Seed)
+	case "txbuild":
+		return ReplayTxBuild(u, h, dir, opt.Seed, opt.Sweep)
 	case "stop-schedule":
 		return StopSchedule(u, opt.Actions, opt.Tasks, opt.Final, dir)
 	}
